@@ -98,6 +98,22 @@ Definition effective (sh : shape) : shape :=
   match sh with [] => [] | s :: r => s :: map guard_stmt r end.
 Definition machine_eff (sh : shape) (rs : list reg) : list call := machine (effective sh) rs.
 
+(* ssa.Builder.getDefer: when the first compiled defer statement is
+   unconditional the frame (sigsetjmp) is set up where that statement stands,
+   otherwise in an init block at function entry.  A panic raised before an
+   unconditional first statement therefore finds no frame of this function and
+   nothing is replayed. *)
+Definition frame_created (sh : shape) (rs : list reg) : bool :=
+  match sh with
+  | s :: _ => match sk s with
+              | Always => existsb (fun r => Nat.eqb (fst r) 0) rs
+              | _ => true
+              end
+  | [] => false
+  end.
+Definition machine_frame (sh : shape) (rs : list reg) : list call :=
+  if frame_created sh rs then machine_eff sh rs else [].
+
 (* Go: deferred calls run in reverse order of execution of the defer
    statements, each with its own arguments *)
 Definition spec_call (sh : shape) (r : reg) : call :=
@@ -140,5 +156,7 @@ Fixpoint outcome (kinds : list dkind) (cs : list call) (cur : bool) : list bool 
 
 Definition machine_outcome (sh : shape) (kinds : list dkind) (rs : list reg) (cur : bool) : list bool * bool :=
   outcome kinds (machine_eff sh rs) cur.
+Definition machine_frame_outcome (sh : shape) (kinds : list dkind) (rs : list reg) (cur : bool) : list bool * bool :=
+  outcome kinds (machine_frame sh rs) cur.
 Definition spec_outcome (sh : shape) (kinds : list dkind) (rs : list reg) (cur : bool) : list bool * bool :=
   outcome kinds (spec sh rs) cur.
